@@ -153,7 +153,7 @@ package yubiagent
 //@   modifies all
 //@   let k0 = old(calls(client.call))
 //@   ensures [one-read-slot-request-naming-the-slot] calls(client.call) == k0 + 1 && arg(client.call, k0, 0) == c && len(arg(client.call, k0, 1)) == 1 + len(slot) &&
-//@     argc(client.call, k0, 1)[off(arg(client.call, k0, 1))] == 33 && strof(argc(client.call, k0, 1), off(arg(client.call, k0, 1)) + 1, len(slot)) == slot
+//@     argc(client.call, k0, 1)[off(arg(client.call, k0, 1))] == 33 && forall(j, 0 <= j && j < len(slot), argc(client.call, k0, 1)[off(arg(client.call, k0, 1)) + 1 + j] == slot[j])
 //@   ensures [transport-failure-is-an-error] ret(client.call, k0, 1) != nil ==> (cert == nil && err == ret(client.call, k0, 1))
 
 //@ func (*client).AttestSlot(c, slot)
@@ -161,5 +161,5 @@ package yubiagent
 //@   modifies all
 //@   let k0 = old(calls(client.call))
 //@   ensures [one-attest-slot-request-naming-the-slot] calls(client.call) == k0 + 1 && arg(client.call, k0, 0) == c && len(arg(client.call, k0, 1)) == 1 + len(slot) &&
-//@     argc(client.call, k0, 1)[off(arg(client.call, k0, 1))] == 34 && strof(argc(client.call, k0, 1), off(arg(client.call, k0, 1)) + 1, len(slot)) == slot
+//@     argc(client.call, k0, 1)[off(arg(client.call, k0, 1))] == 34 && forall(j, 0 <= j && j < len(slot), argc(client.call, k0, 1)[off(arg(client.call, k0, 1)) + 1 + j] == slot[j])
 //@   ensures [transport-failure-is-an-error] ret(client.call, k0, 1) != nil ==> (cert == nil && err == ret(client.call, k0, 1))
